@@ -305,6 +305,22 @@ func one(r *vh.Run, i int) {
 				viol("conversion-hangs", fmt.Sprintf("a conversion whose mutating call %d fails with an I/O error hangs [%s]", k+1, c.desc))
 				break
 			}
+			if r4.Done && k == (i/6)%nmut {
+				// the same server, once the fault is gone: the store looks at index.json again after a second at the
+				// latest; that look has to repeat the conversion - not keep the half-converted index it has in memory
+				time.Sleep(1100 * time.Millisecond)
+				var p6 []string
+				r6 := vh.Watch(func() {
+					p6 = verifyServer(c, s4, fmt.Sprintf("after a conversion whose mutating call %d failed with an I/O error, same server, storage healthy again", k+1))
+				}, 2*time.Second, 60*time.Second)
+				r.Count("failed_call_conversions_checked_same_server", 1)
+				for _, p := range p6 {
+					viol("conversion-failed-call-same-server:"+classify(p), p+" ["+c.desc+"]")
+				}
+				if !r6.Done {
+					break
+				}
+			}
 			if r4.Done {
 				_ = s4.Close()
 			}
